@@ -298,14 +298,19 @@ class DataPacketReceiver(Elaboratable):
                     with m.Case(0b0001):
                         m.d.comb += data_to_check.eq(Cat(previous_word[8:32], sink.data[0:8]))
 
-                # Check our CRC based on the word we've extracted, and strobe either ``packet_good``
-                # or ``packet_bad``, depending on its validity.
-                with m.If(data_to_check == crc32.crc):
-                    m.d.comb += self.packet_good.eq(1)
-                with m.Else():
-                    m.d.comb += self.packet_bad.eq(1)
+                    # A zero-length payload has no data bytes; its whole CRC was the word we saw last.
+                    with m.Case(0b0000):
+                        m.d.comb += data_to_check.eq(previous_word)
 
-                # Finally, wait for our next packet.
+                # Check our CRC based on the word we've extracted, and strobe either ``packet_good``
+                # or ``packet_bad``, depending on its validity. Only words that are valid carry CRC bytes.
+                with m.If(sink.valid):
+                    with m.If(data_to_check == crc32.crc):
+                        m.d.comb += self.packet_good.eq(1)
+                    with m.Else():
+                        m.d.comb += self.packet_bad.eq(1)
+
+                    # Finally, wait for our next packet.
                     m.next = "WAIT_FOR_HPSTART"
 
 
